@@ -27,6 +27,7 @@ const (
 	lvHeap
 	lvElem
 	lvGlobal
+	lvConst // immutable captured variable: the value itself
 )
 
 type pstep struct {
@@ -237,6 +238,8 @@ func isErrorIface(t types.Type) bool {
 // loadLV reads the value designated by lv in state st.
 func (c *Ctx) loadLV(st *State, lv *LVal) string {
 	switch lv.kind {
+	case lvConst:
+		return c.applyPath(lv.ref, lv.path)
 	case lvCell:
 		t, ok := st.cells[lv.alloc]
 		if !ok {
@@ -411,6 +414,15 @@ func (c *Ctx) resolveType(s string, pkg *types.Package) types.Type {
 			if sp.Pkg.Name() == p {
 				if o := sp.Pkg.Scope().Lookup(n); o != nil {
 					return o.Type()
+				}
+			}
+		}
+		for _, sp := range c.prog.Prog.AllPackages() {
+			if sp.Pkg.Name() == p {
+				if o := sp.Pkg.Scope().Lookup(n); o != nil {
+					if _, ok := o.(*types.TypeName); ok {
+						return o.Type()
+					}
 				}
 			}
 		}
